@@ -371,8 +371,18 @@ def check_else_end(F, res):
             res.error('no analysable world for ' + opname)
 
 
+def stack_underflow(w):
+    """worlds that assume a pop of the control / if-else stack found nothing: every `else` / `end` the validator accepted
+    has its frame, so these worlds cannot occur (the code answers them with an error or a panic, either is fine)"""
+    for k, v in w.assumptions:
+        if v == NONE and isinstance(k, tuple) and k and k[0] == 'call' and k[1].endswith('Vec::pop') \
+                and ('ctx.controls' in show(k[2][0]) or 'ctx.if_else' in show(k[2][0])):
+            return True
+    return False
+
+
 def check_else_end_world(res, opname, w, np, nr, P, R):
-    if find_is_none(w):
+    if find_is_none(w) or stack_underflow(w):
         return 0
     kinds = [v[2] for k, v in w.assumptions if isinstance(v, tuple) and v[0] == 'ctor' and v[1] == 'ir::BlockKind']
     kind = kinds[0] if kinds else None
@@ -578,6 +588,12 @@ def nth_from_top(t, stack):
     """t == stack[len(stack) - n - 1]  ->  n (term)"""
     while t[0] == 'ok':
         t = t[1]
+    # `stack.iter().rev().nth(n)`: the n-th frame from the top, the same element
+    if t[0] == 'call' and t[1].split('::')[-1] == 'nth' and len(t[2]) == 2:
+        sq = t[2][0]
+        if sq[0] == 'seq' and show(sq[1]) == 'rev(%s)' % stack and sq[2] == ('elem', sq[1]):
+            return t[2][1]
+        return None
     if t[0] != 'call' or t[1] != 'index' or show(t[2][0]) != stack:
         return None
     i = t[2][1]
@@ -596,6 +612,20 @@ def depth_of(t, stack):
         return None
     while t[0] == 'ok':
         t = t[1]
+    # `len - 1 - rposition(pred)`: the last match counted from the end = the first match of the reversed walk
+    if t[0] == 'bin' and t[1] == 'Sub' and t[2] == ('bin', 'Sub', ('call', t[2][2][1] if t[2][0] == 'bin' and t[2][2][0] == 'call' else '', t[2][2][2] if t[2][0] == 'bin' and t[2][2][0] == 'call' else ()), lit(1, 'usize')) \
+            and show(t[2][2]) == 'len(%s)' % stack:
+        r = t[3]
+        while r[0] == 'ok':
+            r = r[1]
+        if r[0] == 'call' and r[1].split('::')[-1] == 'rposition' and len(r[2]) == 2:
+            s, pred = r[2]
+            if s[0] == 'seq' and show(s[1]) == stack and s[2] == ('elem', s[1]) and pred[0] == 'bin' and pred[1] == 'Eq':
+                if pred[2] == s[2]:
+                    return pred[3]
+                if pred[3] == s[2]:
+                    return pred[2]
+        return None
     if t[0] != 'call' or t[1] != 'iter::position':
         return None
     s, pred = t[2]
